@@ -21,7 +21,7 @@ RULE = ('load: real ISMRMRD/HDF5 files written per case (labels k1,k2 + up to 2 
         'samples; trajectory from Cartesian/radial/RPE calculators, stored 2-/3-column trajectories or a user trajectory); ids of data, '
         'every AcqInfo field and trajectory compared exactly with Model/KLoad.v under vm_compute; a second file with another order and '
         'without the rejected acquisitions must load identically. permutations: every order of a small file. flag_filter: every single '
-        'flag bit. pulseq: pypulseq-written .seq files. Non-trivial = at least 2 kept acquisitions in a non-sorted file order; distinct by case hash.')
+        'flag bit. sunflower: KTrajectorySunflowerGoldenRpe on complete grids against a numpy oracle built from the k1/k2 indices. pulseq: pypulseq-written .seq files. translator: Gen/kload_gen.v regenerated from enums.py / acq_filters.py / KData.py (9 obligations). Non-trivial = at least 2 kept acquisitions in a non-sorted file order; distinct by case hash.')
 TRUSTED_BASE = ['translator harness/translate/kload.py (ast -> Gallina for AcqFlags, DEFAULT_IGNORE_FLAGS, KDIM_SORT_LABELS, OTHER_LABELS; fail-closed)',
                 'harness/ismrmrd_writer.py (ids encoded in data / trajectory / header fields) and the ismrmrd + h5py libraries that store them',
                 'numpy lexsort, einops.rearrange, torch.unique (modelled as stable sort / row-major reshape / counting, validated by correspondence)',
@@ -182,6 +182,19 @@ def gen_load(rng, tier):
     return cases
 
 
+def gen_sunflower(rng, tier):
+    cases = []
+    while len(cases) < (12 if tier == 'quick' else 200):
+        c = make_case(rng, variant='grid', traj='sunflower')
+        img = [a for a in c['acqs'] if a['kind'] == 'image']
+        k2v = sorted({a['labels']['k2'] for a in img})
+        for a in c['acqs']:                      # the calculator assumes k2 = 0 .. n-1
+            a['labels']['k2'] = k2v.index(a['labels']['k2']) if a['labels'].get('k2') in k2v else 0
+        if len(expected_kept(c)) >= 2:
+            cases.append(c)
+    return cases
+
+
 def gen_perm(rng, tier):
     cases = []
     for n_acq, reps in ((4, 2), (3, 1)) if tier == 'quick' else ((5, 4), (6, 1), (4, 3)):
@@ -233,6 +246,9 @@ def _trajectory_arg(c):
         return KTrajectoryRadial2D(angle=math.pi * c['angle_num'] / 16)
     if t == 'rpe':
         return KTrajectoryRpe(angle=math.pi * c['angle_num'] / 16)
+    if t == 'sunflower':
+        from mrpro.data.traj_calculators import KTrajectorySunflowerGoldenRpe
+        return KTrajectorySunflowerGoldenRpe()
     if t == 'user':
         n = c['n_k0']
         kx = torch.arange(n, dtype=torch.float32).reshape(1, 1, 1, n) * 3 + 1
@@ -394,7 +410,7 @@ def cmp_load(c, o, m):
     tr = o['traj']
     mode = c['traj']
     ang = math.pi * c['angle_num'] / 16
-    for p in range(len(d)):
+    for p in range(len(d) if mode != 'sunflower' else 0):   # sunflower: implementation-level oracle only
         for j in range(sh[4]):
             kz, ky, kx = tr[p][j]
             if mode in ('ismrmrd3', 'ismrmrd2'):
@@ -457,6 +473,12 @@ def oracle_load(c, o):
     if not o['finite']:
         return 'trajectory is not finite'
     ang = math.pi * c['angle_num'] / 16
+    if mode == 'sunflower':
+        # angle of a phase-encoding line from its k2 index, radial shift from the rank of that angle among all lines
+        sun_ang = {k2: float(np.float32(k2) * np.float32(math.pi * 0.618034)) % math.pi for k2 in {a['labels'].get('k2', 0) for a in kept}}
+        order = sorted(sun_ang, key=lambda q: sun_ang[q])
+        sun_rank = {k2: order.index(k2) for k2 in sun_ang}
+        golden = 0.5 * (math.sqrt(5) + 1)
     # stored trajectories / calculators agree with the readout found at that position
     for p, aid in enumerate(o['data_ids']):
         a = byid[aid]
@@ -475,6 +497,9 @@ def oracle_load(c, o):
                 kr = k1 - c['k1_center']
                 kr = kr + (0, 0.5, 0.25, 0.75)[k2 % 4] if kr != 0 else 0
                 want = [kr * math.sin(k2 * ang), kr * math.cos(k2 * ang), float(k0)]
+            elif mode == 'sunflower':
+                kr = 0.0 if k1 == 0 else (k1 - c['k1_center']) + ((sun_rank[k2] * golden) % 1) - 0.5
+                want = [kr * math.sin(sun_ang[k2]), kr * math.cos(sun_ang[k2]), float(k0)]
             else:
                 want = [7.0, -2.0, 3.0 * j + 1]
             if not all(_tol_eq(x, y) for x, y in zip((kz, ky, kx), want)):
@@ -733,6 +758,8 @@ FAMILIES = [
            shard=40, theorem='C14_colocated, C14_position, C14_order_independent, C14_filter_independent, C14_cartesian_agrees, C14_kfreq_*'),
     Family('permutations', gen_perm, impl_load, coq_load, PREAMBLE, cmp_load, oracle_load, nontrivial=nontrivial_load, descr=descr_load,
            shard=60, theorem='C14_order_independent'),
+    Family('sunflower', gen_sunflower, impl_load, coq_load, PREAMBLE, cmp_load, oracle_load, nontrivial=nontrivial_load, descr=descr_load,
+           shard=40, theorem='(KTrajectorySunflowerGoldenRpe: implementation-level oracle; loading part: C14_colocated ...)'),
     Family('flag_filter', gen_flags, impl_flags, coq_flags, PREAMBLE, cmp_flags, oracle_flags, theorem='C14_flag_filter'),
     Family('knoise', gen_noise, impl_noise, coq_noise, PREAMBLE, cmp_noise, oracle_noise, theorem='(model load_noise)'),
     Family('pulseq', gen_pulseq, impl_pulseq, None, '', None, oracle_pulseq, theorem='C14_pulseq_defined, C14_pulseq_bound (implementation-level oracle)'),
